@@ -75,6 +75,30 @@ class ProbeSolver(IncrementalTrackingSolver):
 
     def _exit(self):
         pass
+
+
+class RefusingProbeSolver(ProbeSolver):
+    """Back-end that refuses what it is told to refuse: an assertion it cannot take, a push beyond its depth."""
+
+    def __init__(self, environment, logic, log, answers, refuse, max_depth, **options):
+        ProbeSolver.__init__(self, environment, logic, log, answers, **options)
+        self.refuse = refuse
+        self.max_depth = max_depth
+
+    @clear_pending_pop
+    def _add_assertion(self, formula, named=None):
+        for r in self.refuse:
+            if r is formula:
+                raise TypeError("the back-end cannot take this assertion")
+        self.native[-1].append(formula)
+        return formula
+
+    @clear_pending_pop
+    def _push(self, levels=1):
+        if len(self.native) - 1 + levels > self.max_depth:
+            raise RuntimeError("the back-end refuses to open more levels")
+        for _ in range(levels):
+            self.native.append([])
 '''
 
 ALPHABET = ["A", "B", "P", "P2", "P0", "O", "O2", "O0", "R", "S", "SA", "Q", "V", "U"]
@@ -228,6 +252,97 @@ def _run_chunk(job):
 
 def _names(w, nodes):
     return "[%s]" % ", ".join(sc.node_str(w, n) if w.is_node(n) else repr(n) for n in nodes)
+
+
+# ---------------------------------------------------------------------------------- tracking solver after a failing call
+ITS_F_HEADS = [("S", "XA"), ("A", "S", "XA"), ("XA",), ("P", "XA", "O"), ("P", "XA"), ("A", "P", "P", "XP"), ("P", "S", "XP", "O"), ("Q", "XA"), ("A", "XA", "XA"),
+               ("P", "A", "S", "XP", "O")]
+ITS_F_TAILS = [("LC",), ("S", "LC"), ("B", "S"), ("P", "B", "O", "S"), ("Q", "S"), ("LR", "B", "LC")]
+ITS_F_NAMES = dict(NAMES, XA="assert d (refused by the back-end)", XP="push 2 (refused by the back-end: too deep)", LC="read last_command",
+                   LR="read last_result")
+
+
+def _its_fail_chunk(cases):
+    repo = get_repo()
+    repo.add_virtual(PROBE_MOD, PROBE_SRC)
+    shape = Shape(("And", S("a"), S("b"), S("c"), S("d")))
+
+    def call(w, it, f):
+        it.apply_decorators = {"pysmt.decorators.clear_pending_pop"}
+        a, b, c, d = w.nargs(f)
+        logic = it.module_global(w.repo.modules["pysmt.logics"], "QF_BOOL")
+
+        def run(seq, skip):
+            log = []
+            answers = [False, True] * (len(seq) + 2)
+            solver = it.instantiate(ClassRef(PROBE_MOD + ".RefusingProbeSolver"), [w.env, logic, log, answers, [d], 2], {})
+            outs = []
+            for x in seq:
+                if x in ("XA", "XP") and skip:
+                    continue
+                try:
+                    if x in ("A", "B", "XA"):
+                        it.call(it.getattr(solver, "add_assertion"), [{"A": a, "B": b, "XA": d}[x]])
+                        r = "ok"
+                    elif x in ("P", "XP"):
+                        it.call(it.getattr(solver, "push"), [2] if x == "XP" else [])
+                        r = "ok"
+                    elif x == "O":
+                        it.call(it.getattr(solver, "pop"), [])
+                        r = "ok"
+                    elif x == "S":
+                        r = it.call(it.getattr(solver, "solve"), [])
+                    elif x == "Q":
+                        r = it.call(it.getattr(solver, "is_sat"), [c])
+                    elif x == "LC":
+                        r = it.getattr(solver, "last_command")
+                    elif x == "LR":
+                        r = it.getattr(solver, "last_result")
+                    out = ("returns", r)
+                except AbsRaise as ex:
+                    out = ("raises", ex.cls_name)
+                if x in ("XA", "XP"):
+                    if out[0] != "raises":
+                        outs.append((x, ("the refused call", out)))
+                    continue
+                try:
+                    live = [id(g) for g in it.iterate(it.getattr(solver, "assertions"))]
+                except AbsRaise as ex:
+                    live = "raises " + ex.cls_name
+                outs.append((x, out, live, len(solver.attrs.get("_backtrack_points", [])), [len(fr) for fr in solver.attrs.get("native", [])]))
+            return outs
+        res = []
+        for head, tail in cases:
+            seq = head + tail
+            try:
+                res.append((seq, "ok", run(seq, False), run(seq, True)))
+            except Unsupported as ex:
+                res.append((seq, "unsupported", str(ex), None))
+        return res
+
+    def post(w, f, val, facts):
+        return proc.ProcResult(shape, "valid", val)
+    res = proc.run_proc(shape, call, post=post, services="full", max_paths=4,
+                        interp_kwargs={"max_steps": 6000000, "max_loop": 100000})
+    if len(res) != 1 or res[0].kind != "valid":
+        r = res[0]
+        return [(h + t, "unsupported", "%s %s" % (r.kind, str(r.detail)[:200]), None) for h, t in cases]
+    return res[0].detail
+
+
+_IFCACHE = {}
+
+
+def its_failure_results(repo, tier="quick"):
+    key = (repo.root, tier)
+    if key not in _IFCACHE:
+        cases = [(h, t) for h in ITS_F_HEADS for t in ITS_F_TAILS]
+        chunks = [cases[i:i + 4] for i in range(0, len(cases), 4)]
+        out = []
+        for r in parallel_map(_its_fail_chunk, chunks):
+            out.extend(r)
+        _IFCACHE[key] = out
+    return _IFCACHE[key]
 
 
 _CACHE = {}
